@@ -294,11 +294,50 @@ returns the period handed to the impl; the impl polls iff `period > 0`. -/
 def timedInterval {α} [PNum α] (duration interval : α) : α :=
   if duration < interval then duration else interval
 
-/-- `time::seconds(sec)` in nanoseconds: `s = (long)sec; us = (long)((sec - (double)s) * 1000000)`. -/
+/-- two's-complement wrap of a 64-bit signed integer (what `imul`/`add` leave on x86-64) -/
+def wrap64 (x : Int) : Int := (x + 9223372036854775808) % 18446744073709551616 - 9223372036854775808
+
+/-- `(long)x` as x86-64 `cvttsd2si` computes it: truncation, and `LONG_MIN` for NaN and for values
+outside the range (formally undefined behaviour in C++; this is what the library built by g++ 12 does,
+and what the correspondence run observes). -/
+def toLongX86 (x : Float) : Int :=
+  if x.isNaN || 9223372036854775808.0 ≤ x || x < -9223372036854775808.0 then -9223372036854775808
+  else x.toInt64.toInt
+
+/-- `time::seconds(sec)` in nanoseconds, **as coded**:
+`s = (long)sec; us = (long)((sec - (double)s) * 1000000); return seconds(s) + microseconds(us);`
+(the sum is formed in microseconds and converted to the clock's nanoseconds; 64-bit wrap-around for
+durations beyond ~292 years, finding F195). -/
 def secondsToNs (sec : Float) : Int :=
-  let s := sec.toInt64
-  let us := ((sec - s.toFloat) * 1000000.0).toInt64
-  s.toInt * 1000000000 + us.toInt * 1000
+  let s := toLongX86 sec
+  let us := toLongX86 ((sec - Float.ofInt s) * 1000000.0)
+  wrap64 (wrap64 (wrap64 (s * 1000000) + us) * 1000)
+
+/-- `const time::point endTime(time::now() + duration)` **as coded**: a 64-bit addition on the clock's
+absolute nanosecond count.  `base` is the absolute value of the model's clock origin; the result is
+again relative to that origin. -/
+def endPointCoded (base now d : Int) : Int := wrap64 (base + now + d) - base
+
+/-- the proposed repair of F195 (notes/C18-fix-F195.diff), kept beside the as-coded definitions so that the
+model can follow the code the day the repair lands (driver header `timed=sat`): seconds saturate at the
+ends of the duration range (NaN counts as 0) … -/
+def secondsToNsSat (sec : Float) : Int :=
+  let limit := Float.ofInt 9223372036854775807 / 1000000000.0 - 1.0
+  if sec.isNaN then 0
+  else if limit ≤ sec then 9223372036854775807
+  else if sec ≤ -limit then -9223372036854775808
+  else secondsToNs sec
+
+/-- … and `now + duration` saturates at the ends of the clock's range. -/
+def endPointSat (base now d : Int) : Int :=
+  let a := base + now
+  if 0 < d ∧ a > 9223372036854775807 - d then 9223372036854775807 - base
+  else if d < 0 ∧ a < -9223372036854775808 - d then -9223372036854775808 - base
+  else a + d - base
+
+/-- the timed condition as coded (cf. `mkTimed`, which is the overflow-free idealisation) -/
+def mkTimedCoded (env : Env) (base : Int) (i : Nat) (polled : Bool) (d : Int) (s : St) : Cond × St :=
+  (.leaf i polled (.timed (endPointCoded base (env.clock s.reads) d)), { s with reads := s.reads + 1 })
 
 /-! ### the polled form at thread-step granularity
 
